@@ -35,5 +35,5 @@ TNext == l <= Len(Rec) /\ l' = l + 1 /\ (TReset \/ TWarm \/ TReload \/ THold \/ 
 TInit == l = 1 /\ warmed = <<>> /\ held = <<>> /\ latest = <<>>
 TSpec == TInit /\ [][TNext]_wvars
 Accepted == IF TLCGet("stats").diameter - 1 = Len(Rec) THEN TRUE
-            ELSE PrintT(<<"REJECTED", TLCGet("stats").diameter, Rec[TLCGet("stats").diameter]>>) /\ FALSE
+            ELSE Print(<<"REJECTED", TLCGet("stats").diameter, Rec[TLCGet("stats").diameter]>>, FALSE)
 =============================================================================
